@@ -863,7 +863,10 @@ def create_sampler(id_, var_id, parameters, arg):
         tree_file_name = 'samples.trees'
 
     parameters2 = list(filter(lambda x: 'tree.ratios' != x, parameters))
-    models = ['joint.jacobian', 'joint', 'like', 'prior', var_id]
+    models = ['joint.jacobian', 'joint', 'like']
+    if not arg.poisson:
+        models.append('prior')
+    models.append(var_id)
 
     if arg.location_regex:
         models.append('like.location')
